@@ -109,9 +109,13 @@ class Check:
                 if o.construct == pre or o.construct.startswith(pre + "#") or o.construct.startswith(pre + ".") \
                         or (partner and (pre == partner or pre.endswith("." + partner))) \
                         or ("<->" in o.construct and o.construct.split("<->")[0] in (pre, pre.rsplit(".", 1)[-1])):
+                    # a taint may be limited to the rules whose extraction it concerns (third component: rule prefixes)
+                    scoped = [w for w in why if len(w) > 2]
+                    if scoped and len(scoped) == len(why) and not any(o.rule.startswith(w[2]) for w in scoped):
+                        continue
                     o.verdict = UNKNOWN
                     o.detail = ("not definite (the analysis of this function met constructs it cannot follow: "
-                                + "; ".join(f"line {l}: {t}" for l, t in why[:3]) + ") -- " + o.detail)
+                                + "; ".join(f"line {w[0]}: {w[1]}" for w in why[:3]) + ") -- " + o.detail)
                     break
 
     def combine(self, other, cells):
